@@ -415,6 +415,19 @@ theorem c01_successive_messages (ms : List Msg) :
     rw [show ({ tx with hdrType := m.hdrType, psize := m.psize } : Tx) = tx0 from rfl, hsend]
     simp only [hrest]
 
+/-- **An abandoned message leaves nothing behind.** Whatever was queued — any queue contents, any read /
+write position — after `Reset` (`Channel.Reset`, which every flush ends in, successful or failed, and
+which a caller may use to drop a half-built message) the next message is well-formed and consists of its
+own packages only: `Reset` establishes exactly the "nothing left behind" precondition of
+`c01_message_wellformed`. -/
+theorem c01_message_after_reset (tx : Tx) (es : List Bytes)
+    (hs : 9 ≤ tx.psize) (hs2 : tx.psize ≤ 65535) (hn : tx.pktNr < 256) :
+    EmptyQ tx.reset ∧
+    ∃ ps, sendMessage tx.reset es = some (afterMessage tx.reset ps.length, ps) ∧ WellFormed tx.reset es ps := by
+  have hq : EmptyQ tx.reset := ⟨rfl, rfl, rfl⟩
+  exact ⟨hq, c01_message_wellformed tx.reset es (by simpa [Tx.reset] using hs) (by simpa [Tx.reset] using hs2)
+    (by simpa [Tx.reset] using hn) hq⟩
+
 /-- non-vacuity: packet size 16 (body 8), a message of exactly 16 bytes in two packages — the
 exact-multiple case: two full packets, EOM on the second only. -/
 example :
